@@ -197,11 +197,23 @@ class History:
         with warnings.catch_warnings():
             warnings.simplefilter("ignore")
             gr = self.get_regime_fn()
+            if solver_kw is None:
+                solver_kw = self.solver_kw(ts)
             for i, (a, b) in enumerate(zip(ts[:-1], ts[1:])):
                 F = m.update_orientations(params, F, Lfun, (a, b, posfun), get_regime=gr, **(solver_kw or {}))
                 if on_update:
                     on_update(i, a, b, F)
         return F
+
+    def solver_kw(self, ts=None):
+        """Keyword arguments forwarded to LSODA for this history (relative to the time axis actually driven)."""
+        ts = self.ts if ts is None else ts
+        sk = self.case.get("solver", "default")
+        if sk == "tight":
+            return {"rtol": 1e-8, "atol": 1e-9}
+        if sk == "max_step":
+            return {"max_step": abs(ts[-1] - ts[0]) / max(1, len(ts) - 1) / 3.0}
+        return {}
 
     def strain_upto(self, i):
         """Accumulated strain after update i (0-based), along the driven history."""
@@ -251,6 +263,8 @@ def random_history_case(rng, **fixed):
         "regime_via": str(rng.choice(["static", "callback"], p=[0.6, 0.4])),
         "layout": str(rng.choice(["C", "F", "moveaxis", "readonly"], p=[0.7, 0.1, 0.1, 0.1])),
         "reversed": bool(rng.random() < 0.08),
+        # keyword arguments forwarded to the ODE solver (tighter tolerances / a step cap are legitimate user choices)
+        "solver": str(rng.choice(["default", "default", "default", "default", "tight", "max_step"])),
     }
     if mode == "multirate":
         case["L"]["rho"] = float(rng.choice([1e-2, 1e-3, 1e-4]))
